@@ -155,6 +155,11 @@ def build_scope(sc, sid):
     if kind == "CTOR03":
         f2.append("\t_ = v17")
     f2.append("}")
+    f2.append("")
+    if slot == "D5":
+        f2.append(comment)
+    f2.append(fmt(decl, 18).replace("g2", "g5") + ((" " + comment) if slot == "TD5" else ""))
+    pos["b5"] = ("u/f2.go", len(f2))
     h = ["package u", "", 'import "m/d"', "", "var gp *d.T", "", "var gs d.S", "", "var _ = gp", ""]
     prog = {"id": sid, "pkgs": [
         {"path": "m/d", "name": "d", "files": [{"name": "d/d.go", "src": D_SRC}]},
